@@ -345,6 +345,36 @@ impl RequestHandler for Regs {
     }
 }
 
+/// like `Regs`, but reading register 0x0777 blocks until the gate is opened (or 5 s have passed), and
+/// single-register writes are recorded
+struct GatedRegs {
+    entered: Arc<std::sync::atomic::AtomicBool>,
+    gate: Arc<(Mutex<bool>, std::sync::Condvar)>,
+    writes: Arc<Mutex<Vec<(u16, u16, Instant)>>>,
+}
+impl RequestHandler for GatedRegs {
+    fn read_holding_register(&self, a: u16) -> Result<u16, ExceptionCode> {
+        if a == 0x0777 {
+            self.entered.store(true, std::sync::atomic::Ordering::SeqCst);
+            let (m, cv) = &*self.gate;
+            let g = m.lock().unwrap();
+            let t = Instant::now();
+            let r = cv.wait_timeout_while(g, Duration::from_secs(5), |open| !*open);
+            if std::env::var("VERIF_DEBUG").is_ok() {
+                eprintln!("gated read returned after {:?} timed_out={:?}", t.elapsed(), r.map(|x| x.1.timed_out()).ok());
+            }
+        }
+        Ok(a.wrapping_mul(3))
+    }
+    fn write_single_register(&mut self, v: Indexed<u16>) -> Result<(), ExceptionCode> {
+        if std::env::var("VERIF_DEBUG").is_ok() {
+            eprintln!("write handler {v:?}");
+        }
+        self.writes.lock().unwrap().push((v.index, v.value, Instant::now()));
+        Ok(())
+    }
+}
+
 /// RTU server on a pty: valid frames answered with a correct CRC, corrupted frames ignored,
 /// strategy calls reset / after_disconnect
 pub async fn rtu_server_pty(frames: usize, seed: u64, ev: &mut Evidence) -> Vec<(String, String)> {
@@ -623,9 +653,18 @@ pub async fn rtu_server_reopen(k: usize, ev: &mut Evidence) -> Vec<(String, Stri
     }
     let min = Duration::from_millis(*[300u64, 450][k % 2..].first().unwrap());
     let log = Arc::new(Mutex::new(vec![]));
-    let map = ServerHandlerMap::single(UnitId::new(7), Regs.wrap());
+    let entered = Arc::new(std::sync::atomic::AtomicBool::new(false));
+    let gate = Arc::new((Mutex::new(false), std::sync::Condvar::new()));
+    let writes = Arc::new(Mutex::new(vec![]));
+    let map = ServerHandlerMap::single(UnitId::new(7), GatedRegs { entered: entered.clone(), gate: gate.clone(), writes: writes.clone() }.wrap());
     let (handle, task) = create_rtu_server_task(&link, settings(), Box::new(LogStrategy { inner: doubling_retry_strategy(min, Duration::from_secs(2)), log: log.clone() }), map, DecodeLevel::nothing());
-    let jh = tokio::spawn(task.run());
+    // the server gets a runtime of its own: one of its handlers blocks its thread on purpose (k = 2, 5, ...),
+    // which must not hold up the timers of this script
+    let Ok(server_rt) = tokio::runtime::Builder::new_multi_thread().worker_threads(1).enable_all().build() else {
+        ev.inconclusive("rtu server reopen leg: cannot build a runtime");
+        return problems;
+    };
+    let jh = server_rt.spawn(task.run());
     let a = Arc::new(a);
     let b = Arc::new(b);
     let mut a_closed_by_hand = false;
@@ -658,6 +697,26 @@ pub async fn rtu_server_reopen(k: usize, ev: &mut Evidence) -> Vec<(String, Stri
             tokio::time::sleep(Duration::from_millis(40)).await;
             ev.count("rtu_server_port_lost_mid_frame", 1);
         }
+        // k = 2, 5, ...: the port goes away while a request is being answered and a second, complete
+        // request is already buffered behind it: that request was received on the old port and must
+        // neither be executed nor answered on the new one
+        let stale_request = k % 3 == 2;
+        if stale_request {
+            let mut both = rtu_frame(7, &[3, 0x07, 0x77, 0, 1]);
+            both.extend_from_slice(&rtu_frame(7, &[6, 0, 9, 0xBE, 0xEF]));
+            let a2 = a.clone();
+            let _ = tokio::task::spawn_blocking(move || a2.write(&both)).await;
+            let t0 = Instant::now();
+            while !entered.load(std::sync::atomic::Ordering::SeqCst) && t0.elapsed() < Duration::from_secs(3) {
+                tokio::time::sleep(Duration::from_millis(5)).await;
+            }
+            if !entered.load(std::sync::atomic::Ordering::SeqCst) {
+                ev.inconclusive("rtu server reopen leg: the gated read never reached the handler");
+                break 'script;
+            }
+            tokio::time::sleep(Duration::from_millis(60)).await;
+            ev.count("rtu_server_port_lost_while_answering", 1);
+        }
         if !point_link(&link, &b.slave_path) {
             ev.inconclusive("rtu server reopen leg: cannot re-point the symlink");
             break 'script;
@@ -665,6 +724,12 @@ pub async fn rtu_server_reopen(k: usize, ev: &mut Evidence) -> Vec<(String, Stri
         let t_kill = Instant::now();
         unsafe { libc::close(a.master) };
         a_closed_by_hand = true;
+        if stale_request {
+            // let the handler return: the reply cannot be written any more
+            let (m, cv) = &*gate;
+            *m.lock().unwrap() = true;
+            cv.notify_all();
+        }
         let b2 = b.clone();
         let Some(t_open) = tokio::task::spawn_blocking(move || b2.wait_slave(true, Duration::from_secs(6))).await.ok().flatten() else {
             problems.push(("rtu_server:port_not_reopened".into(), "the RTU server did not re-open its port within 6 s after it came back".into()));
@@ -680,6 +745,26 @@ pub async fn rtu_server_reopen(k: usize, ev: &mut Evidence) -> Vec<(String, Stri
             problems.push(("rtu_server:reopened_before_strategy_delay".into(), format!("the strategy returned {announced:?} after the port was lost, but the port was opened again {:?} after the loss", t_open.duration_since(t_kill))));
         }
         tokio::time::sleep(Duration::from_millis(50)).await;
+        if stale_request {
+            // nobody has sent anything on the new port yet
+            let b2 = b.clone();
+            let unsolicited = tokio::task::spawn_blocking(move || b2.read_for(Duration::from_millis(400), Duration::from_millis(15))).await.unwrap_or_default();
+            // (executed on the old opening, before the loss was noticed, is an ordinary race; executed
+            // after the new opening is the old stream leaking into the new one)
+            if let Some(x) = writes.lock().unwrap().first() {
+                ev.sample(json!({"rtu_server_reopen_stale_request": {"write_executed_ms_after_port_loss": x.2.saturating_duration_since(t_kill).as_millis() as u64, "write_executed_ms_before_port_loss": t_kill.saturating_duration_since(x.2).as_millis() as u64, "reopened_ms_after_port_loss": t_open.duration_since(t_kill).as_millis() as u64}}));
+            }
+            // the old session ends within milliseconds of the loss (its reply cannot be written) and the
+            // server then waits `min` (>= 300 ms) before it opens the port again: what runs in the second
+            // half of that wait or later runs on the new opening
+            let w: Vec<(u16, u16)> = writes.lock().unwrap().iter().filter(|x| x.2 > t_kill + min / 2).map(|x| (x.0, x.1)).collect();
+            if !unsolicited.is_empty() || !w.is_empty() {
+                problems.push((
+                    "rtu_server:no_service_after_reopen:request_of_old_port_executed".into(),
+                    format!("a write request received on the old port (behind a request whose reply could no longer be written) was carried over to the re-opened port: handler writes after the re-open {w:?}, bytes sent on the new port before any request: {}", hex(&unsolicited)),
+                ));
+            }
+        }
         let (b2, g2) = (b.clone(), good.clone());
         let reply = tokio::task::spawn_blocking(move || {
             b2.write(&g2);
@@ -697,6 +782,7 @@ pub async fn rtu_server_reopen(k: usize, ev: &mut Evidence) -> Vec<(String, Stri
     if tokio::time::timeout(Duration::from_secs(10), jh).await.is_err() {
         problems.push(("rtu_server:task_did_not_terminate".into(), "RTU server task still running 10 s after shutdown".into()));
     }
+    server_rt.shutdown_background();
     let _ = std::fs::remove_file(&link);
     if a_closed_by_hand {
         if let Ok(p) = Arc::try_unwrap(a) {
